@@ -56,6 +56,61 @@ CHECKS = {
                 text='Control-flow skeleton family: on no path (committed or speculative) does the pc move from one function\'s extent into the next without a taken jump; non-empty functions return the value the '
                      'reference interpreter computes; a block the compiler truncated never completes its last kept statement normally.',
                 note=TB + ' Over-rejection ("Missing return statement") is allowed by the property and counted separately.'),
+
+    'C06': dict(cat='proof', ref='5 C06', engine='CH',
+                technique='CrossHair symbolic execution (z3) of the real grammar rules on token lists: one nesting step from an arbitrary context, every lemma confirmed over all paths',
+                text='For every valid BlockContext, every block construct / expression position and every probe leaf (ordinary, you and defeat calls, try, preempt, ??, break, continue) the real parser rule accepts '
+                     'the one-step nesting iff the README table allows it; function-flavour, ??-operand and global-scope lemmas likewise. The lemmas compose by structural induction over nesting (argued in DESIGN.md); '
+                     'a depth-3 composition guard through the real lexer and parser runs alongside.',
+                note='Token lists stand for source text (lexing is C12). The induction over nesting depth is an argument in DESIGN.md, not a solver result. Trusted: CrossHair/z3, the README table as transcribed in ch/c06_ctx.py.'),
+    'C07': dict(cat='proof', ref='5 C07', engine='CH',
+                technique='CrossHair symbolic execution (z3) of the typechecker methods on AST objects built from symbolic selectors against a transcription of the README typing rules; rule x position tables enumerated through parse+evaluate',
+                text='Coercion lattice, explicit-cast lattice, array-literal inference and const flexibility, nested arrays and overload resolution (exact match first, else first declared coercible; <= 3 overloads, arity <= 2) '
+                     'are confirmed over all paths; every (type x expression kind) in declaration / assignment / cast / argument / return / condition / index position, ~90 rule cases and overload layouts with the caller before, '
+                     'between and after the overloads are compared with an independent transcription (hv/tcspec.py), the binding being read from the checked tree.',
+                note='Unit level: one statement / one call per obligation; lifting to whole programs relies on the checker being compositional (argument). Trusted: CrossHair/z3; hv/tcspec.py as the reading of the README.'),
+    'C10': dict(cat='other', ref='5 C10', engine='CH',
+                technique='CrossHair (z3) on compiler options and on the parser over short token lists; complete enumeration of the typechecker-to-generator interface tables with the strict assembler as acceptance oracle',
+                text='PARTIAL: the quantifier "all source strings" is not reachable (the regex lexer cannot be executed symbolically) and is not claimed. Claimed: option handling and parser totality on token lists are confirmed over all paths; '
+                     'every program of the C07 rule tables and a set of generator-assertion probes either fails with a located, renderable CompilerError or compiles to text the strict assembler accepts; random text / mutated programs and '
+                     'the command-line tool (exit status, stderr, output file) are exercised as auxiliary concrete runs.',
+                note='Auxiliary concrete parts are reported separately in the evidence. Trusted: CrossHair/z3, hv/asm.py as the assembler.'),
+    'C11': dict(cat='proof', ref='5 C11', engine='CH',
+                technique='CrossHair symbolic execution (z3) of the real ps_expr on token lists with symbolic operator selectors vs an independent precedence-climbing parser; exhaustive enumeration of all operator triples',
+                text='All 14x14 operator pairs (plain, with unary prefixes, unary before a cast; postfix/cast variants and level-representative triples and round trips in the thorough tier) parse to the tree of an independent '
+                     'precedence-climbing parser written from the README table; all 14^3 triples x 5 parenthesisations x 5 tree shapes and all pair variants are enumerated completely; depth-6 trees are printed with minimal parentheses '
+                     'and re-parsed through the real lexer.',
+                note='Grouping decisions of an operator-precedence grammar involve two adjacent operators (argument), which is why pairs and triples are the relevant scope. Trusted: CrossHair/z3; the README table in ch/c11_prec.py.'),
+    'C12': dict(cat='other', ref='5 C12', engine='RX+CH',
+                technique='z3 regular-expression / string theory on the lexer\'s own compiled patterns (unbounded length); CrossHair on the scanner glue; concrete differentials against a reference tokenizer (auxiliary)',
+                text='PARTIAL: decided by the solver for strings of any length: every pattern of readers.py equals the documented grammar; hex/octal/binary literals are never shadowed by the decimal reader; no symbol token prefixes an '
+                     'identifier or literal; the symbol list realises longest match; keyword/symbol/escape tables equal the documentation; cursor and span bookkeeping of the scanner glue is confirmed over all paths. The composition of the '
+                     'readers in lex() is NOT solver-decided; it is guarded by exhaustive short strings, targeted inputs and re-layout differentials against an independent reference tokenizer (auxiliary).',
+                note='ASCII reading of \\d \\w \\s; non-ASCII letters/digits/white space are outside the claim. Trusted: z3 sequence theory, CPython re._parser, hv/lexref.py.'),
+    'C13': dict(cat='translation_validation', ref='5 C13', engine='SVM+CH',
+                technique='symbolic execution with the payload of every constant replaced by solver symbols (z3); CrossHair on _escape_bytes / pack_bools; every byte value through the real pipeline and the strict assembler',
+                text='For strings (local, global, argument, converted) and constant byte/int/bool/string arrays of lengths 0..40 the payload in the assembled data section is replaced by fresh symbols: write emits exactly those symbols in order, '
+                     'indexing with a symbolic index returns symbol i (bit i%8 of byte i/8 for bools), lengths are exact and control flow never depends on the contents. Escaping round-trips for every byte and both quote kinds (CrossHair); '
+                     'all 256 values, boundary pairs and long strings pass through the real pipeline into the strict assembler and print unchanged; multi-constant programs agree with the reference interpreter.',
+                note=TB),
+    'C14': dict(cat='translation_validation', ref='5 C14', engine='CH+SVM',
+                technique='CrossHair (z3) on the constant folder with symbolic integers; twin programs on the symbolic VM: constant form vs variable form with the literal substituted, decided for every value of the remaining inputs',
+                text='Folding of + - * / % comparisons, logic, unary minus and casts equals machine arithmetic for in-range operands and results, is rejected exactly for zero divisors, and preserves byte-coercibility (CrossHair, all paths). '
+                     'x OP c, c OP x, const variables, chains with a folded inner part, casts and boolean constants behave like their run-time twins for all x; fully constant expressions agree on a boundary grid. Known finding: folding never wraps '
+                     'at the word size (operands/intermediates outside the signed word range), listed in known_findings.json and demonstrated on every run.',
+                note=TB + ' The known finding fold-int-no-wrap is excluded by its predicate; every other disagreement is reported.'),
+    'C17': dict(cat='translation_validation', ref='5 C17', engine='SVM',
+                technique='symbolic execution of the emitted library routines (z3): whole-word decimal specification at 16 bit (24 bit thorough), per-iteration lemmas on the real routine from symbolic loop states at 32/64 bit, stack-size sweep for caller state',
+                text='write(int) prints the signed decimal representation for all 65536 values at 16 bit (all 2^24 in the thorough tier) incl. MIN and 0; at wider words the prologue, one digit-loop iteration and the epilogue of the real routine '
+                     'are decided for the whole word from arbitrary symbolic states, plus boundary constants; write(bool/byte/string/byte arrays) and writeln emit exactly the symbolic contents for lengths 0..8 (0..64 thorough); caller locals and arrays '
+                     'are unchanged around each call at every stack size.',
+                note=TB + ' At 32/64 bit the composition of the three lemmas over the <= 20 iterations is an induction on paper.'),
+    'C18': dict(cat='translation_validation', ref='5 C18', engine='SVM',
+                technique='stack-size sweep and cross-word-size differential on the symbolic VM (z3 decides the equivalence obligations); hash-seed and lint clauses as auxiliary concrete differentials',
+                text='PARTIAL: solver-decided: (b) every run that does not overflow equals the generous-stack run at every stack size and overflow is monotone; (c) with sign-extended inputs and under the recorded no-overflow conditions of the narrow run, '
+                     'the w and w\' builds (2/3, 2/4; more pairs thorough) emit the same bytes and sign-extended words. Not solver-decidable: (a) byte-identical output across processes/hash seeds and (d) --lint leaves code unchanged are concrete '
+                     'differentials in subprocesses, reported separately.',
+                note=TB + ' Obligations needing products/quotients of two symbolic operands at two widths are excluded (each width is decided in C09).'),
 }
 
 NA = {
